@@ -852,3 +852,16 @@ package cbor
 //@   flag tags binary_log
 //@   requires src != nil
 //@   ensures [C08] old(len(content(src))) > 2 && old(content(src))[0] == 0xd9 && old(content(src))[1] == 1 && old(content(src))[2] == 4 ==> ncalls(IP.String) + ncalls(HardwareAddr.String) == old(ncalls(IP.String)) + old(ncalls(HardwareAddr.String)) + 1
+
+// tag 1 (time): an integer timestamp is whole seconds; a float timestamp is split into its
+// integral seconds and the remaining fraction (so that the instant is representable far outside
+// the range of a 64-bit nanosecond count). props NONE: only these clauses are checked here.
+//@ track time.Unix, decodeFloat, decodeInteger
+//@ func decodeTimeStamp(src) res
+//@   props NONE
+//@   arith bv
+//@   flag tags binary_log
+//@   requires src != nil
+//@   ensures [C08] ncalls(time.Unix) == old(ncalls(time.Unix)) + 1
+//@   ensures [C08] ncalls(decodeInteger) == old(ncalls(decodeInteger)) + 1 ==> callarg(time.Unix, old(ncalls(time.Unix)), 0) == callres(decodeInteger, old(ncalls(decodeInteger)), 0) && callarg(time.Unix, old(ncalls(time.Unix)), 1) == 0
+//@   ensures [C08] ncalls(decodeFloat) == old(ncalls(decodeFloat)) + 1 ==> callarg(time.Unix, old(ncalls(time.Unix)), 0) == ftoi64(callres(decodeFloat, old(ncalls(decodeFloat)), 0))
